@@ -195,7 +195,7 @@ def create_hmc_operator(id_, joint, parameters, arg):
     return operator
 
 
-def create_hmc(joint, parameters, parameters_unres, arg):
+def create_hmc(joint, parameters, parameters_unres, arg, has_prior=True):
     hmc_json = {
         "id": "hmc",
         "type": "MCMC",
@@ -241,7 +241,7 @@ def create_hmc(joint, parameters, parameters_unres, arg):
             idx = parameters2.index("tree.root_height.unshifted")
             parameters2[idx] = "tree.root_height"
 
-        hmc_json["loggers"] = create_loggers(parameters2, arg)
+        hmc_json["loggers"] = create_loggers(parameters2, arg, has_prior)
 
     return hmc_json
 
@@ -282,7 +282,13 @@ def build_hmc(arg):
     }
     json_list.append(joint_jacobian)
 
-    opt_dict = create_hmc("joint.jacobian", parameters, parameters_unres, arg)
+    has_prior = any(
+        isinstance(d, dict) and d.get("id") == "prior"
+        for d in joint_dic["distributions"]
+    )
+    opt_dict = create_hmc(
+        "joint.jacobian", parameters, parameters_unres, arg, has_prior
+    )
     json_list.append(opt_dict)
 
     for plugin in PLUGIN_MANAGER.plugins():
